@@ -83,7 +83,7 @@ type MsgSpec struct {
 	// Preformatted: generic headers set through SetGenHeaderPreformatted (the caller folds them itself)
 	Preformatted [][2]string `json:"preformatted_headers,omitempty"`
 	// Middleware: message middlewares installed with WithMiddleware: footer (appends a footer to every text part, once),
-	// header (sets a generic header), encoding (switches every part to base64), attach (adds an attachment, once)
+	// header (sets a generic header), copy-body (returns a modified copy of the Msg), encoding (switches every part to base64), attach (adds an attachment, once)
 	Middleware []string `json:"middleware,omitempty"`
 }
 
@@ -104,6 +104,11 @@ func (w specMiddleware) Handle(m *mail.Msg) *mail.Msg {
 			}
 			p.SetContent(string(c) + mwFooter)
 		}
+	case "copy-body":
+		// works on a copy and hands that back, the caller's Msg is left as it is
+		cp := *m
+		cp.SetBodyString(mail.TypeTextPlain, "body set by a middleware on a copy of the message\r\n")
+		return &cp
 	case "header":
 		m.SetGenHeader("X-Verif-Middleware", "seen")
 	case "encoding":
